@@ -25,12 +25,8 @@ func (i *IRCServer) cmdServerKill(s *Session, reply *Replyctx, msg *irc.Message)
 	}
 
 	killPrefix := msg.Prefix
-	for id, session := range i.sessions {
-		if id.Id != s.Id.Id || id.Reply == 0 || NickToLower(session.Nick) != NickToLower(msg.Prefix.Name) {
-			continue
-		}
+	if session := i.pseudoClientLocked(s, msg.Prefix.Name); session != nil {
 		killPrefix = &session.ircPrefix
-		break
 	}
 
 	session, ok := i.nicks[NickToLower(msg.Params[0])]
